@@ -25,11 +25,21 @@ META = {
             "theorems per layer, composed in dissect_encodeHeader for every Ethernet(+-802.1Q)|none x IPv4 (any options, IHL 5..15)|IPv6 x TCP|UDP|ICMP "
             "combination; undissectable_header / header_cut: a header cut before the end of its transport header at any offset, a non-IP ether type incl. QinQ, an IP protocol without a struct incl. IPv6 extension headers, another header protocol is a dissector error; raw_record_dissectable / raw_record_undissectable: a raw-header record of ANY octets (0..1500) is consumed exactly and reported iff dissectable; "
             "decode_encode' over abstract headers of both kinds needing only well-formedness, its expected datagram not mentioning the dissector); the model is tied to the code by byte-for-byte comparison of json.Marshal output on generated "
-            "datagrams, and the code is checked against the abstract datagram each case was encoded from.",
+            "datagrams, and the code is checked against the abstract datagram each case was encoded from. "
+            "Regenerated and proved on every run (gen_dissect_*, gen_sflow_*): factgen translates the extraction code itself - every right-hand side with which "
+            "packet/{ethernet,network,transport,icmp}.go fill Datalink / IPv4Header / IPv6Header / TCPHeader / UDPHeader / ICMP (octet, shift, mask, |, +, *, "
+            "conversions with their wrap-around, the IPv4 header-length clamp, slices and the text function applied to them; the length guards; the hand-over to the next layer; "
+            "the 802.1Q buffer rewrite followed symbolically), and sfHeaderDecode / getSampleInfo / the FlowSample, CounterSample, SampledHeader, ExtRouterData unmarshal functions "
+            "statement by statement (reads, the 24-bit source-id index, the 1500 cap, XDR padding in uint32, agent address length by type, extended-router length rule, tag split "
+            "enterprise = tag >> 12 / format = tag & 0xfff), the named dispatch constants and the three switch tables - into a small expression / row IR with a total evaluator; "
+            "the model's field functions, its decoders and its fixed-layout readers are proved EQUAL to the meaning of the regenerated terms for every octet string "
+            "(no sampling; structures built by field name), so a changed offset, shift, mask, width or read order in the source breaks a named proof; "
+            "the pre-fix expressions of F8, F15, F17, F19b, F19c are shown to evaluate differently from the model.",
     "ref": "DESIGN.md §6 C07 / C18",
-    "note": "Trusted: Lean kernel; hand-written model (Go reader/slice semantics transcribed); harness generator, wire encoder "
+    "note": "Trusted: Lean kernel; hand-written model (Go reader/slice semantics transcribed; its field extraction and fixed-layout reads are no longer trusted: proved equal to the "
+            "regenerated extraction code, which moves the trust to factgen's expression translator and the evaluator in Model/DissectIR.lean); harness generator, wire encoder "
             "and oracle bound what the tie sees. IPv4 options are inside the well-formed domain since F17; since F19 every sampled header is "
             "(IPv6 extension headers, non-IP frames, truncated headers: record absent, rest intact), as are the source id index, the TCP reserved bits and extended-router records of any length.",
-    "technique": "Lean 4 round-trip proofs over a wire encoder + differential correspondence with sflow.SFDecode / packet.Decoder "
-                 "+ abstract-datagram oracle",
+    "technique": "Lean 4 round-trip proofs over a wire encoder + source-to-IR translation of the extraction code with equality proofs against the model "
+                 "+ differential correspondence with sflow.SFDecode / packet.Decoder + abstract-datagram oracle",
 }
